@@ -1152,6 +1152,146 @@ def run_points(ctx, pts):
         ctx.sample({"mechanism": pt.mech, "params": pt.params, "measured_on_implementation": pt.meas})
 
 
+
+# =========================================================================================== live-object sequences
+
+def warm_script(seed):
+    r = gen.SplitMix64(seed)
+    return {"u": [r.u01() for _ in range(3000)], "bits": [r.next() for _ in range(300)],
+            "n": [r.normal() for _ in range(20)], "g": [r.randint(1, 4) for _ in range(20)]}
+
+
+def harder(r, mech, p):
+    """an assignment of new valid parameters that demands MORE noise (smaller epsilon / delta, larger sensitivity, wider
+    domain): a calibration kept from before the assignment is then too weak for the new parameters"""
+    opts = []
+    if p.get("epsilon", 0) > 2e-3:
+        opts.append("epsilon")
+    if "sensitivity" in p and p["sensitivity"] < 1e5:
+        opts.append("sensitivity")
+    if p.get("delta", 0) > 1e-9:
+        opts.append("delta")
+    if mech in ("LaplaceBoundedDomain", "Snapping") and math.isfinite(p["upper"] - p["lower"]):
+        opts.append("upper")
+    if not opts:
+        return {}
+    picks = {r.choice(opts)}
+    if r.chance(0.3):
+        picks.add(r.choice(opts))
+    a = {}
+    for k in sorted(picks):
+        if k == "epsilon":
+            a[k] = max(1e-3, p[k] / r.choice([2.0, 4.0, 10.0]))
+        elif k == "sensitivity":
+            if mech == "GaussianDiscrete":
+                a[k] = int(p[k] * r.choice([2, 3])) if p[k] else 1
+            else:
+                a[k] = p[k] * r.choice([2.0, 5.0, 10.0]) if p[k] else 1.0
+        elif k == "delta":
+            a[k] = p[k] / r.choice([2.0, 10.0, 100.0])
+        elif k == "upper":
+            a[k] = p[k] + (p["upper"] - p["lower"]) * r.choice([1.0, 9.0]) + (1.0 if p["upper"] == p["lower"] else 0.0)
+    return a
+
+
+def live_sequence(mech, p1, assigned, warm_seed, ops):
+    """construct(p1) -> warm-up calls `ops` -> assign -> the Live object (ready to be measured) and a log of what ran"""
+    live = Live(mech, p1, warm_script(warm_seed))
+    ran = []
+    for op in ops:
+        try:
+            if op == "randomise":
+                quiet(live.obj.randomise, 0)
+            else:
+                f = getattr(live.obj, op)
+                quiet(f) if op == "effective_epsilon" else quiet(f, 0)
+            ran.append(op)
+        except Exception as e:  # noqa  (NotImplementedError, an exhausted warm-up script …: the call was made)
+            ran.append(f"{op}!{type(e).__name__}")
+    for k, v in assigned.items():
+        setattr(live.obj, k, v)
+    return live, ran
+
+
+def same_meas(a, b):
+    for k in set(a) & set(b):
+        x, y = a[k], b[k]
+        if k in ("prec", "draws") or not isinstance(x, (int, float)) or isinstance(x, bool) or not isinstance(y, (int, float)):
+            continue
+        tol = max(1e-9, 4 * (a.get("prec", 0.0) or 0.0), 4 * (b.get("prec", 0.0) or 0.0))
+        if not (close(x, y, tol, 1e-300) or (x != x and y != y)):
+            return False, k
+    return True, None
+
+
+def live_case(ctx, mech, p1, assigned, warm_seed, ops, dseed):
+    """measure the calibration a LIVE object uses after an attribute assignment; it must be the calibration of a fresh
+    object built with the new parameters.  If it is not, the property's own inequality (direct check) decides."""
+    from ..core import Ctx
+    p2 = dict(p1)
+    p2.update(assigned)
+    live, ran = live_sequence(mech, p1, assigned, warm_seed, ops)
+    pt_live = Point(mech, p2)
+    pt_live.note = {"live": {"constructed_with": p1, "warm_up": ran, "assigned": assigned, "warm_seed": warm_seed,
+                             "ops": ops, "dseed": dseed}}
+    with live.installed():
+        MECHS[mech][1](pt_live)
+    pt_fresh = Point(mech, p2)
+    MECHS[mech][1](pt_fresh)
+    same, key = same_meas(pt_live.meas, pt_fresh.meas)
+    if same:
+        return "same"
+    ctx.count("live_calibration_differs_from_fresh")
+    scratch = Ctx(PROPERTY, ctx.tier, 0)
+    MECHS[mech][4](scratch, pt_fresh, gen.SplitMix64(dseed))
+    if scratch.violations:
+        return "fresh-fails"            # reported by the ordinary points under its own signature
+    before = ctx.counters.get("violations_raw", 0)
+    MECHS[mech][4](ctx, pt_live, gen.SplitMix64(dseed))
+    if ctx.counters.get("violations_raw", 0) > before or ctx.counters.get(f"sig:C02:{mech}:stale-calibration", 0):
+        return "stale-violates"
+    ctx.count("live_stale_but_private")
+    ctx.note(f"live {mech}: after assigning {assigned} the object keeps {key}={pt_live.meas.get(key)!r} "
+             f"(fresh: {pt_fresh.meas.get(key)!r}); the old calibration still satisfies the inequality")
+    return "stale-private"
+
+
+def run_live(ctx):
+    r = ctx.fork("live")
+    names = list(MECHS)
+    n = ctx.budget(160, 3000)
+    for i in range(n):
+        mech = names[i % len(names)]
+        rr = r.fork(i)
+        p1 = dg_gen(rr, 60.0) if mech == "GaussianDiscrete" else MECHS[mech][0](rr)
+        if mech == "Staircase":
+            p1.setdefault("gamma", rr.u01())
+        assigned = harder(rr, mech, p1)
+        if not assigned:
+            continue
+        if mech == "GaussianDiscrete":
+            q = dict(p1)
+            q.update(assigned)
+            if (q["sensitivity"] or 1) * math.sqrt(2 * math.log(1.25 / min(q["delta"], 0.9))) / q["epsilon"] > 250:
+                continue
+        ops = ["randomise"] + [o for o in ("effective_epsilon", "variance", "bias") if rr.chance(0.4)]
+        if rr.chance(0.3):
+            ops = ops[1:] + ops[:1]
+        try:
+            res = live_case(ctx, mech, p1, assigned, rr.next(), ops, rr.next())
+        except seams.ScriptExhausted:
+            ctx.count("live_unmeasurable")
+            continue
+        except (ArithmeticError, ValueError, TypeError, RecursionError) as e:
+            ctx.disagree(f"live.{mech}.raises", {"constructed_with": p1, "assigned": assigned}, "a calibration",
+                         f"{type(e).__name__}: {e}")
+            continue
+        ctx.case(("live", mech, i) if res != "same" else None)
+        ctx.count("live_" + res)
+        if res == "same":
+            ctx.trace_ok()
+
+
 def check(ctx):
     erf_correspondence(ctx)
     pts = gen_points(ctx, ctx.budget(700, 16000))
@@ -1165,6 +1305,7 @@ def check(ctx):
                 from ..core import unjson_float
                 pts.insert(0, Point(mech, {k: unjson_float(v) for k, v in p.items()}))
     run_points(ctx, pts)
+    run_live(ctx)
 
 
 def replay(ctx, data):
@@ -1173,9 +1314,20 @@ def replay(ctx, data):
     params = {k: u(v) for k, v in dd["params"].items()}
     if dd["mech"] == "GaussianDiscrete":
         params["sensitivity"] = int(params["sensitivity"])
+    case = dd.get("case")
+    if isinstance(case, dict) and "live" in case:
+        lv = case["live"]
+        p1 = {k: u(v) for k, v in lv["constructed_with"].items()}
+        asg = {k: u(v) for k, v in lv["assigned"].items()}
+        if dd["mech"] == "GaussianDiscrete":
+            p1["sensitivity"] = int(p1["sensitivity"])
+            if "sensitivity" in asg:
+                asg["sensitivity"] = int(asg["sensitivity"])
+        before = ctx.counters.get("violations_raw", 0)
+        live_case(ctx, dd["mech"], p1, asg, int(lv["warm_seed"]), list(lv["ops"]), int(lv["dseed"]))
+        return ctx.counters.get("violations_raw", 0) > before
     pt = Point(dd["mech"], params)
     MECHS[pt.mech][1](pt)
-    case = dd.get("case")
     cases = None
     if isinstance(case, dict) and "t" in case:
         cases = [(D(case.get("x", "0")), D(case["t"]))]
